@@ -199,7 +199,7 @@ def emit_tokens(label, pattern: str) -> list:
     """Tokens a task with this emit pattern makes visible (one per log/print/err step)."""
     out = []
     for i, step in enumerate(pattern.split('+')):
-        if step in ('log', 'warn', 'print', 'err', 'iprint', 'nprint', 'exc', 'wprint', 'eprint', 'rprint', 'dlog', 'tprint'):
+        if step in ('log', 'warn', 'print', 'err', 'iprint', 'nprint', 'exc', 'wprint', 'eprint', 'rprint', 'dlog', 'tprint', 'bprint'):
             out.append(f'<{label}.{i}>')
         elif step.startswith('burst'):
             out.extend(f'<{label}.{i}.{j}>' for j in range(int(step[5:])))
@@ -266,6 +266,13 @@ def _emit(task):
             th = threading.Thread(target=print, args=(f'out{tok}',))
             th.start()
             th.join()
+        elif step == 'bprint':                      # the common idiom: write bytes to the underlying buffer if the stream has one
+            buf = getattr(sys.stdout, 'buffer', None)
+            if buf is not None:
+                buf.write(f'out{tok}\n'.encode())
+                buf.flush()
+            else:
+                print(f'out{tok}')
         elif step == 'wrap':                        # the task puts its own wrapper around the stream it found and leaves it there
             sys.stdout = _StreamWrapper(sys.stdout)
         elif step == 'flush':
